@@ -70,6 +70,7 @@ type fctx struct {
 	tailParam string              // [seq] the parameter standing for a timed tail
 	nilErr    map[*ast.Ident]bool // [ext:T20] occurrences of nil that stand for the nil error
 	x07       *fstate07           // [ext:T07] parents, views (trans_ext07.go)
+	inRet     int                 // [BitsCode] > 0 while the operands of a `return` are translated (struct literals may then hold named slices)
 }
 
 func (c *fctx) fresh(prefix string) string {
@@ -128,6 +129,12 @@ func (c *fctx) aliasSource(e ast.Expr, en *env) (string, bool) {
 		}
 	case *ast.SliceExpr:
 		return c.aliasSource(x.X, en)
+	case *ast.IndexExpr: // [ext:T08] an element of a [][]byte shares with the table
+		if tv, ok := c.t.info.Types[x.X]; ok && tv.Type != nil {
+			if g, ok := c.t.type08(tv.Type, x); ok && g.nest {
+				return c.aliasSource(x.X, en)
+			}
+		}
 	case *ast.CallExpr:
 		if id, ok := ast.Unparen(x.Fun).(*ast.Ident); ok {
 			if b, ok := c.t.info.Uses[id].(*types.Builtin); ok {
@@ -244,7 +251,12 @@ func (c *fctx) pure(e ast.Expr) bool {
 		return true
 	case *ast.CallExpr:
 		b := c.builtin(x)
-		if b == "len" || b == "cap" || b == "min" || b == "max" || b == "append" || c.isConversion(x) {
+		pureFn := false
+		if c.t.funcValueCall(x) != nil { // a function value without slice parameters is a total pure function
+			g := c.t.exprType(x.Fun)
+			pureFn = g.k == kFunc && g.fn.pure && c.pure(x.Fun)
+		}
+		if b == "len" || b == "cap" || b == "min" || b == "max" || b == "append" || c.isConversion(x) || pureFn {
 			for _, a := range x.Args {
 				if !c.pure(a) {
 					return false
@@ -309,7 +321,11 @@ func (c *fctx) expr(e ast.Expr, en *env, k func(string) string) string {
 			}
 			return k(v.name)
 		}
+		if fn := t.funcValueRef(x); fn != nil { // a function of the package used as a value (trans_func.go)
+			return k(c.funcValueTerm(fn, x))
+		}
 		if s, ok := c.sentinel20(x, o); ok { // [ext:T20] package-level `var ErrX = errors.New("...")`, never assigned
+			c.sentinelClash15(x) // [ext:T15]
 			return k(s)
 		}
 		if s, ok := c.table07(x, o); ok { // [ext:T07] package-level `var t = []byte{...}` that nothing writes
@@ -318,6 +334,9 @@ func (c *fctx) expr(e ast.Expr, en *env, k func(string) string) string {
 		t.fail(x, "identifier %s (not a local variable, parameter or constant)", x.Name)
 	case *ast.SelectorExpr:
 		sel := t.info.Selections[x]
+		if s, ok := c.foreign15(x); ok { // [ext:T15] hex.ErrLength: a sentinel of an imported package
+			return k(s)
+		}
 		if sel == nil || sel.Kind() != types.FieldVal {
 			t.fail(x, "selector %s", x.Sel.Name)
 		}
@@ -343,6 +362,11 @@ func (c *fctx) expr(e ast.Expr, en *env, k func(string) string) string {
 	case *ast.BinaryExpr:
 		return c.binary(x, en, k)
 	case *ast.IndexExpr:
+		if id, ok := ast.Unparen(x.X).(*ast.Ident); ok { // f[T] used as a value (trans_func.go)
+			if fn := t.funcValueRef(id); fn != nil {
+				return k(c.funcValueTerm(fn, x))
+			}
+		}
 		if g := t.exprType(x.X); g.k != kSlice || g.elem != nil { // [seq] a whole struct element is not a value
 			t.fail(x, "index expression on a non-slice (or a struct element used as a value)")
 		}
@@ -350,14 +374,14 @@ func (c *fctx) expr(e ast.Expr, en *env, k func(string) string) string {
 		return c.expr(x.X, en, func(a string) string {
 			return c.expr(x.Index, en, func(i string) string {
 				v := c.fresh("v")
-				return fmt.Sprintf("do %s <- m_get %s %s;;\n%s", v, a, i, k(v))
+				return fmt.Sprintf("do %s <- %s %s %s;;\n%s", v, getFn08(t.exprType(x.X)), a, i, k(v)) // [ext:T08] m_getA on [][]byte
 			})
 		})
 	case *ast.SliceExpr:
 		if x.Slice3 {
 			t.fail(x, "3-index slice expression")
 		}
-		if g := t.exprType(x.X); g.k != kSlice || g.elem != nil {
+		if g := t.exprType(x.X); g.k != kSlice || g.elem != nil || g.nest { // [ext:T08] nest
 			t.fail(x, "slice expression on a non-slice (or on a slice of structs)")
 		}
 		return c.expr(x.X, en, func(a string) string {
@@ -380,6 +404,13 @@ func (c *fctx) expr(e ast.Expr, en *env, k func(string) string) string {
 				})
 			})
 		})
+	case *ast.CompositeLit: // [ext:T08] []byte{a, b}; [BitsCode] S{f: e, …} of a translated struct
+		if tv, ok := t.info.Types[x]; ok && tv.Type != nil {
+			if _, isStruct := tv.Type.Underlying().(*types.Struct); isStruct {
+				return c.structLit(x, en, k)
+			}
+		}
+		return c.complit08(x, en, k)
 	case *ast.CallExpr:
 		return c.call(x, en, func(vs []string) string {
 			if len(vs) != 1 {
@@ -415,6 +446,7 @@ func (c *fctx) binary(x *ast.BinaryExpr, en *env, k func(string) string) string 
 		})
 	}
 	c.markNil20(x.X, x.Y) // [ext:T20] err == nil
+	c.errCmp15(x)         // [ext:T15] errors built by fmt.Errorf compare with nil / sentinels only
 	c.markNil20(x.Y, x.X)
 	return c.expr(x.X, en, func(a string) string {
 		return c.expr(x.Y, en, func(b string) string {
@@ -554,7 +586,7 @@ func (c *fctx) call(x *ast.CallExpr, en *env, k func([]string) string) string {
 		if !((to.k == kInt || to.k == kUint) && (from.k == kInt || from.k == kUint)) && !(to.k == from.k && to.k != kStruct) {
 			t.fail(x, "conversion from %s to %s", t.info.Types[x.Args[0]].Type, t.info.Types[x].Type)
 		}
-		if to.k == kInt && to.bits == 0 && from.k == kUint && from.bits == 64 {
+		if to.k == kInt && to.bits == 0 && from.k == kUint && from.bits == 64 && !c.below63(x.Args[0]) {
 			t.fail(x, "conversion of a 64-bit unsigned value to a signed integer (overflow is not modelled)")
 		}
 		return c.expr(x.Args[0], en, func(a string) string {
@@ -567,6 +599,7 @@ func (c *fctx) call(x *ast.CallExpr, en *env, k func([]string) string) string {
 			return k([]string{a})
 		})
 	}
+	c.refuseNested08(x, c.builtin(x)) // [ext:T08] append / copy / make on [][]byte
 	switch b := c.builtin(x); b {
 	case "len", "cap":
 		if t.exprType(x.Args[0]).k != kSlice {
@@ -629,10 +662,22 @@ func (c *fctx) call(x *ast.CallExpr, en *env, k func([]string) string) string {
 	default:
 		t.fail(x, "builtin %s", b)
 	}
+	if n := t.onesCountCall(x); n != 0 { // [BitsCode] math/bits.OnesCountN
+		return c.args(x.Args, en, func(vs []string) string { return k([]string{fmt.Sprintf("(ones_count %d %s)", n, vs[0])}) })
+	}
+	if t.funcValueCall(x) != nil { // a function value (trans_func.go)
+		return c.callFuncValue(x, en, k)
+	}
 	if s, ok := c.seqCall(x, en, k); ok { // [seq] sync/atomic, runtime.Gosched
 		return s
 	}
 	if s, ok := c.call07(x, en, k); ok { // [ext:T07] modelled standard-library functions, identity functions
+		return s
+	}
+	if s, ok := c.call15(x, en, k); ok { // [ext:T15] fmt.Errorf / errors.New as an error kind; hex.EncodedLen / DecodedLen
+		return s
+	}
+	if s, ok := c.foreignCall08(x, en, k); ok { // [ext:T08] TransSpec.Foreign, errors.New / fmt.Errorf
 		return s
 	}
 	fn, recv := t.calleeOf(x)
@@ -673,7 +718,7 @@ func (c *fctx) call(x *ast.CallExpr, en *env, k func([]string) string) string {
 	}
 	var wb07 *writeBack07 // [ext:T07] slice arguments the callee writes in place come back and are stored
 	emit := func(rterm string, vs []string) string {
-		app := fi.name + fuel
+		app := fi.name + fuel + c.callee08(fi, x) // [ext:T08] ext'
 		if rv != nil {
 			app += " " + rv.name
 		}
@@ -686,6 +731,13 @@ func (c *fctx) call(x *ast.CallExpr, en *env, k func([]string) string) string {
 		for _, v := range vs {
 			app += " " + v
 		}
+		if back := t.writtenArgs(x); len(back) > 0 { // in-out slice arguments come back after the receiver (trans_func.go)
+			rn := ""
+			if rv != nil && fi.writes {
+				rn = rv.name
+			}
+			return c.bindCall(app, rn, back, len(fi.results), en, x, k)
+		}
 		var rs []string
 		for range fi.results {
 			rs = append(rs, c.fresh("v"))
@@ -697,7 +749,8 @@ func (c *fctx) call(x *ast.CallExpr, en *env, k func([]string) string) string {
 		for _, g := range t.ordered20(fi.gwrites) {
 			parts = append(parts, c.globalName20(g, en, x))
 		}
-		parts = append(parts, wb07.names()...) // [ext:T07]
+		parts = append(parts, wb07.names()...)           // [ext:T07]
+		parts = append(parts, c.outArgs15(fi, x, en)...) // [ext:T15] the slices written in place come back
 		if len(rs) > 0 {
 			parts = append(parts, tuple(rs))
 		}
@@ -806,4 +859,107 @@ func (c *fctx) store(lhs ast.Expr, val string, en *env, k func() string) string 
 	}
 	t.fail(lhs, "assignment to %s", nodeDesc(lhs))
 	return ""
+}
+
+// ---- [BitsCode] int(u) for a 64-bit unsigned u that is syntactically below 2^63 -----------------------------------
+// below63 reports whether the unsigned 64-bit expression e is below 2^63 for every value of its variables in
+// [0, 2^64): a constant, `u >> c` (constant c >= 1), `u & c` / `c & u` (constant 0 <= c < 2^63), `u % c` (constant
+// 0 < c <= 2^63), `u / c` (constant c >= 2), a conversion from a narrower unsigned type.  Then int(e) is the identity.
+func (c *fctx) below63(e ast.Expr) bool {
+	t := c.t
+	lim := constant.Shift(constant.MakeInt64(1), token.SHL, 63)
+	cst := func(e ast.Expr) (constant.Value, bool) {
+		tv, ok := t.info.Types[e]
+		if !ok || tv.Value == nil || tv.Value.Kind() != constant.Int {
+			return nil, false
+		}
+		return tv.Value, true
+	}
+	if v, ok := cst(e); ok {
+		return constant.Compare(v, token.GEQ, constant.MakeInt64(0)) && constant.Compare(v, token.LSS, lim)
+	}
+	switch x := e.(type) {
+	case *ast.ParenExpr:
+		return c.below63(x.X)
+	case *ast.BinaryExpr:
+		l, lok := cst(x.X)
+		r, rok := cst(x.Y)
+		small := func(v constant.Value) bool {
+			return constant.Compare(v, token.GEQ, constant.MakeInt64(0)) && constant.Compare(v, token.LSS, lim)
+		}
+		switch x.Op {
+		case token.SHR:
+			return rok && constant.Compare(r, token.GEQ, constant.MakeInt64(1))
+		case token.AND:
+			return (rok && small(r)) || (lok && small(l)) || c.below63(x.X) || c.below63(x.Y)
+		case token.REM:
+			return rok && constant.Compare(r, token.GTR, constant.MakeInt64(0)) && constant.Compare(r, token.LEQ, lim)
+		case token.QUO:
+			return rok && constant.Compare(r, token.GEQ, constant.MakeInt64(2))
+		}
+	case *ast.CallExpr:
+		if c.isConversion(x) && len(x.Args) == 1 {
+			if from := t.exprType(x.Args[0]); from.k == kUint && from.bits < 64 {
+				return true
+			}
+			if from := t.exprType(x.Args[0]); from.k == kUint {
+				return c.below63(x.Args[0])
+			}
+		}
+	}
+	return false
+}
+
+// ---- [BitsCode] S{f: e, …} for a translated struct S ----------------------------------------------------------------
+// structLit: a composite literal of a translated struct type (a value, not &S{…}) becomes `mkS v1 … vn` (fields not
+// named: their zero value; operands evaluated in source order).  A slice-typed field may be initialised from a
+// variable / field / slice of one only in the operand of a `return` (the locals die there; aliasing across calls is the
+// documented limit of the list model) — elsewhere only from a fresh value (make, nil, append to a fresh value).
+func (c *fctx) structLit(x *ast.CompositeLit, en *env, k func(string) string) string {
+	t := c.t
+	g := t.exprType(x)
+	if g.k != kStruct || g.ptr {
+		t.fail(x, "composite literal of type %s (only translated struct types)", t.info.Types[x].Type)
+	}
+	si := g.st
+	idx := make([]int, len(x.Elts))
+	vals := make([]ast.Expr, len(x.Elts))
+	for i, el := range x.Elts {
+		if kv, ok := el.(*ast.KeyValueExpr); ok {
+			id, ok := kv.Key.(*ast.Ident)
+			idx[i] = -1
+			for j, f := range si.fields {
+				if ok && f == id.Name {
+					idx[i] = j
+				}
+			}
+			if idx[i] < 0 {
+				t.fail(el, "field key in a literal of %s", si.name)
+			}
+			vals[i] = kv.Value
+		} else {
+			if len(x.Elts) != len(si.fields) {
+				t.fail(x, "positional literal of %s with %d of %d fields", si.name, len(x.Elts), len(si.fields))
+			}
+			idx[i], vals[i] = i, el
+		}
+		if si.ftypes[idx[i]].k == kSlice && c.inRet == 0 {
+			if src, shares := c.aliasSource(vals[i], en); shares {
+				t.fail(el, "struct literal field %s.%s initialised from %s outside a return (aliasing is not modelled)", si.name, si.fields[idx[i]], src)
+			}
+		}
+	}
+	return c.args(vals, en, func(vs []string) string {
+		term := "(mk" + si.name
+		for j, ft := range si.ftypes {
+			v := ft.zero()
+			for i := range idx {
+				if idx[i] == j {
+					v = vs[i]
+				}
+			}
+			term += " " + v
+		}
+		return k(term + ")")
+	})
 }
